@@ -32,7 +32,8 @@ Doc(s) ==
   ELSE IF Head(s) = "%" /\ IsName(Tail(s)) THEN [act |-> "rename", name |-> Tail(s), val |-> <<>>]
   ELSE IF Head(s) \notin {"-", "%"} /\ Last(s) = ";" /\ IsName(Front(s))
        THEN [act |-> "empty", name |-> Front(s), val |-> <<>>]
-  ELSE IF Head(s) \notin {"-", "%"} /\ Last(s) # ";" /\ ColonAt(s) # {} /\ NoCRLF(s)
+  \* (a value may end in ';' - "Cookie: a=1;" - only a bare name followed by ';' is the set-empty form)
+  ELSE IF Head(s) \notin {"-", "%"} /\ ColonAt(s) # {} /\ NoCRLF(s)
        THEN LET i == CHOOSE j \in ColonAt(s) : \A m \in ColonAt(s) : j <= m
             IN [act |-> "add", name |-> SubSeq(s, 1, i - 1), val |-> LStrip(SubSeq(s, i + 1, Len(s)))]
   ELSE NoRule
